@@ -6,9 +6,11 @@ import (
 	"context"
 	"time"
 
+	"github.com/google/uuid"
 	"github.com/hydraide/hydraide/app/core/hydra/swamp"
 	"github.com/hydraide/hydraide/app/core/hydra/swamp/chronicler"
 	"github.com/hydraide/hydraide/app/core/hydra/swamp/metadata"
+	"github.com/hydraide/hydraide/app/core/hydra/swamp/treasure"
 	"github.com/hydraide/hydraide/app/name"
 	"github.com/hydraide/hydraide/app/verifrt"
 )
@@ -226,4 +228,115 @@ func VerifC16Ack(h *verifrt.H) {
 		}
 		h.Cover("end")
 	})
+}
+
+// ---------- C19: subscribers ----------
+
+type c19ev struct {
+	status treasure.TreasureStatus
+	key    string
+	val    int64
+}
+
+func c19save(s swamp.Swamp, key string, v int64) treasure.TreasureStatus {
+	t := s.CreateTreasure(key)
+	g := t.StartTreasureGuard(true)
+	defer t.ReleaseTreasureGuard(g)
+	t.SetContentInt64(g, v)
+	return t.Save(g)
+}
+
+// VerifC19Events: a client subscribes to / unsubscribes from a swamp around a history of up to
+// maxSteps writes (create, change with a symbolic value, identical re-save, delete) on two keys
+// of a real in-memory swamp behind the real hydra fan-out: while subscribed it receives exactly
+// one event per committed change, in commit order, with the committed value; none for saves
+// that change nothing; none while unsubscribed; a new subscription after the last unsubscribe
+// works again.
+func VerifC19Events(h *verifrt.H) {
+	h.BackgroundLowPriority(true)
+	hy := vhNew(h)
+	n := name.New().Sanctuary("s").Realm("r").Swamp("w")
+	ctx := context.Background()
+	s, err := hy.SummonSwamp(ctx, 1, n)
+	h.Assert(err == nil, "summon")
+	id := uuid.UUID{1}
+	var got []c19ev
+	cb := func(e *swamp.Event) {
+		ev := c19ev{status: e.StatusType}
+		switch {
+		case e.StatusType == treasure.StatusDeleted && e.DeletedTreasure != nil:
+			ev.key = e.DeletedTreasure.GetKey()
+		case e.Treasure != nil:
+			ev.key = e.Treasure.GetKey()
+			ev.val, _ = e.Treasure.GetContentInt64()
+		}
+		got = append(got, ev)
+	}
+	var want []c19ev
+	subscribed := false
+	keys := []string{"a", "b"}
+	var present [2]bool
+	var value [2]int64
+	steps := h.Len("steps", 1, h.Param("maxSteps", 3))
+	for i := 0; i < steps; i++ {
+		switch h.Choose("step", 5) {
+		case 0:
+			h.Assert(hy.SubscribeToSwampEvents(id, n, cb) == nil, "subscribe-ok")
+			subscribed = true
+		case 1:
+			h.Assert(hy.UnsubscribeFromSwampEvents(id, n) == nil, "unsubscribe-ok")
+			subscribed = false
+		case 2: // write a (possibly new, possibly changed, possibly identical) value
+			k := h.Choose("key", 2)
+			v := h.Int64("value")
+			h.Assume(v != 0)
+			st := c19save(s, keys[k], v)
+			switch {
+			case !present[k]:
+				h.Assert(st == treasure.StatusNew, "save-status-new")
+				if subscribed {
+					want = append(want, c19ev{treasure.StatusNew, keys[k], v})
+				}
+			case value[k] != v:
+				h.Assert(st == treasure.StatusModified, "save-status-modified")
+				if subscribed {
+					want = append(want, c19ev{treasure.StatusModified, keys[k], v})
+				}
+			default:
+				// identical re-save: nothing changed, no event
+				h.Known("C19-identical-resave-reports-modified", "identical-resave", true)
+				h.Assert(st == treasure.StatusSame, "identical-resave-status-same")
+				h.ClearKnown()
+				if st != treasure.StatusSame && subscribed {
+					want = append(want, c19ev{treasure.StatusModified, keys[k], v}) // follow the implementation so that later steps stay comparable
+				}
+			}
+			present[k], value[k] = true, v
+		case 3:
+			k := h.Choose("key", 2)
+			derr := s.DeleteTreasure(keys[k], false)
+			h.Assert((derr == nil) == present[k], "delete-result")
+			if present[k] && subscribed {
+				want = append(want, c19ev{treasure.StatusDeleted, keys[k], 0})
+			}
+			present[k] = false
+			if s.IsClosing() { // the swamp emptied and destroyed itself: summon a new instance
+				s, err = hy.SummonSwamp(ctx, 1, n)
+				h.Assert(err == nil, "re-summon")
+			}
+		case 4: // a read produces no event
+			_, _ = s.GetTreasure(keys[h.Choose("key", 2)])
+		}
+		h.Assert(len(got) == len(want), "one-event-per-committed-change-while-subscribed")
+		if len(got) != len(want) {
+			return
+		}
+		for j := range got {
+			h.Assert(got[j].status == want[j].status && got[j].key == want[j].key, "events-in-commit-order")
+			if want[j].status != treasure.StatusDeleted {
+				h.Assert(got[j].val == want[j].val, "event-carries-committed-value")
+			}
+		}
+	}
+	h.Cover("end")
 }
